@@ -234,31 +234,47 @@ def run_case(case, ctx):
         fk = gen.choice(rs, ["default", "default", "sum", "first"])
         wrapper = bool(rs.rand() < 0.5)
         desc.update(dtype=dt, mode=mode, func=fk, wrapper=wrapper)
+        cplx = bool(np.dtype(dt) == np.float64 and rs.rand() < 0.15)
+        if cplx:
+            # complex factors: the "sign" of a summary is its phase; dividing it out of one factor and multiplying it into the receiving
+            # one leaves the tensor alone and makes the summaries real and non-negative
+            factors = [f + 1j * rs.standard_normal(f.shape) for f in factors]
+            desc["complex"] = True
+            ctx.count("cp_flip_sign_complex")
         if w is None:
-            w = np.ones(R, dtype=dt)  # cp_flip_sign needs weights
-            desc["weights"] = "ones"
+            ctx.count("cp_flip_sign_without_weights")     # (None, factors) is a CP tensor like any other
         func = {"default": None, "sum": (lambda x, axis=0: tl.sum(x, axis=axis)), "first": (lambda x, axis=0: x[0])}[fk]
         before, _, _ = ref.cp_dense(w, factors)
         scale = _cp_scale(w, factors)
         nf = {"default": lambda x: np.mean(x, axis=0), "sum": lambda x: np.sum(x, axis=0), "first": lambda x: x[0]}[fk]
-        has_zero = any(np.any(nf(np.asarray(factors[k])) == 0) for k in range(order) if k != mode) or bool(np.any(w == 0))
-        cls = "zero-summary" if has_zero else "any"
-        obj = (w.copy(), [f.copy() for f in factors])
+        has_zero = any(np.any(nf(np.asarray(factors[k])) == 0) for k in range(order) if k != mode) or bool(w is not None and np.any(w == 0))
+        cls = ("zero-summary" if has_zero else "any") + ("+complex" if cplx else "") + ("+noweights" if w is None else "")
+        obj = (None if w is None else w.copy(), [f.copy() for f in factors])
         if wrapper:
             obj = cpm.CPTensor(obj)
         negm = bool(rs.rand() < 0.3)     # the receiving mode counted from the end
         desc["negative_mode"] = negm
-        out = cpm.cp_flip_sign(obj, mode=(mode - order if negm else mode), func=func)
+        try:
+            out = cpm.cp_flip_sign(obj, mode=(mode - order if negm else mode), func=func)
+        except TypeError as e:
+            viol("raises-TypeError", cls, "cp_flip_sign raised TypeError: %s" % str(e)[:120], desc)
+            return
         ow, of = out
         after, _, _ = ref.cp_dense(ow, of)
         dense_check(cls, after, before, scale, desc)
         ctx.count("clause/canonical-form")
-        if np.any(np.asarray(ow) < 0):
+        if ow is not None and np.any(np.asarray(ow) < 0):
             viol("canonical-form", cls, "cp_flip_sign left a negative weight %r" % (np.asarray(ow),), desc)
         for k in range(order):
             if k == mode:
                 continue
-            if np.any(nf(ref.hp(of[k])) < 0):
+            sm_ = nf(ref.hp(of[k]))
+            if cplx:
+                if np.any(sm_.real < -1e-12 * (1 + np.abs(sm_))) or np.any(np.abs(sm_.imag) > 1e-9 * (1 + np.abs(sm_))):
+                    viol("canonical-form", cls, "cp_flip_sign left a column summary that is not real and non-negative in non-receiving mode %d: %r" % (k, sm_), desc)
+                    break
+                continue
+            if np.any(sm_ < 0):
                 viol("canonical-form", cls, "cp_flip_sign left a negative column summary in non-receiving mode %d" % k, desc)
                 break
         ctx.nontriv(desc)
